@@ -61,6 +61,11 @@ func (c *caseOrderChecker) checkTypeSwitch(s *ast.TypeSwitchStmt) {
 				c.warnUnknownType(cc, x)
 				return
 			}
+			if typ == types.Typ[types.UntypedNil] {
+				// `case nil` matches a nil interface value, which
+				// no preceding interface type case can match.
+				continue
+			}
 			for _, iface := range ifaces {
 				if types.Implements(typ, iface.typ) {
 					c.warnTypeSwitch(cc, x, iface.node)
